@@ -729,6 +729,20 @@ func ruleOPT5(c *Ctx) {
 				}
 			}
 			c.Check(okChar, "unquoteString / UnquoteChar with the literal's own quote", p.Pos(uq.Pos()), "quote = first byte of the literal", "escapes are decoded against a fixed quote character: the other quote style decodes differently")
+			// nothing but the per-character decoder (and the quote checks) may reject a string token: a whole-literal
+			// decoder such as strconv.Unquote applies Go's source rules (no raw line feed, quote-dependent escapes) that the
+			// GRL token does not have, so a grammatical document would be refused
+			var foreign []string
+			for _, ci := range callsIn(uq) {
+				if errResultIndex(ci.Common().Signature()) < 0 {
+					continue
+				}
+				if matchPkgFunc("strconv", "UnquoteChar")(ci) {
+					continue
+				}
+				foreign = append(foreign, calleeName(ci)+" at "+p.InstrPos(ci.(ssa.Instruction)))
+			}
+			c.Check(len(foreign) == 0, "unquoteString / only strconv.UnquoteChar can reject a string token", p.Pos(uq.Pos()), "no other fallible call", "the literal is (also) decoded by "+strings.Join(foreign, ", ")+": that decoder has its own grammar, so string tokens the GRL lexer admits (e.g. a raw line break inside \"…\") are rejected or decoded differently")
 			c.Check(okMulti, "unquoteString / single bytes from \\x and octal escapes are kept as bytes", p.Pos(uq.Pos()), "UnquoteChar's multibyte result selects byte vs. UTF-8 encoding", "every escape is re-encoded as UTF-8: \"\\xe4\\xb8\\x96\" no longer denotes the Go string (bytes >= 0x80 become two bytes)")
 		}
 	}
